@@ -492,7 +492,22 @@ func (w *w1World) checkClientLog(cl *w1SimClient) {
 					if active[f.Ch].serverSide {
 						how = "push:sub or connect reply"
 					}
-					s.Violate("C10", "double-subscribe-reply", "subscribe reply while subscribed via "+how+w.rnq(), "client %d got a successful subscribe reply for %s while a subscription (started by %s) was active", cl.idx, f.Ch, how)
+					sig := "subscribe reply while subscribed via " + how
+					// had the server ended that subscription already (a server-side
+					// unsubscribe ran, its unsubscribe push is still on its way)? Then the
+					// new subscribe was legitimately accepted and its reply overtook the push.
+					var cmdSeq int64
+					if c := cmdByID[f.ReplyID]; c != nil {
+						cmdSeq = c.Seq
+					}
+					for _, op := range w.nodeOps {
+						mine := (op.Kind == "nunsub" && op.User == cl.spec.User) || (op.Kind == "cunsub" && op.C == cl.idx)
+						if mine && op.Ch == f.Ch && op.Seq > active[f.Ch].originSeq && op.Seq < f.Seq && (op.RetSeq == 0 || op.RetSeq > cmdSeq) {
+							// the unsubscribe was in progress when the subscribe command ran
+							sig = "subscribe reply overtakes the unsubscribe push of a server-side unsubscribe in progress"
+						}
+					}
+					s.Violate("C10", "double-subscribe-reply", sig+w.rnq(), "client %d got a successful subscribe reply for %s while a subscription (started by %s) was active", cl.idx, f.Ch, how)
 				}
 				in := start(f.Ch, f, false)
 				in.pubs = append(in.pubs, f.Pubs...)
@@ -805,6 +820,12 @@ func (w *w1World) checkFilterAndDelta(in *w1Instance) {
 							path = "recovery"
 						}
 					}
+				}
+				if path == "live broadcast" && truth.RetSeq != 0 && truth.RetSeq < in.originSeq {
+					// published (and broadcast) before this subscription was even requested:
+					// it was admitted by the filters of the previous subscription and is
+					// attributed to this one only because it was delivered after its reply
+					path = "publication broadcast before the subscription was requested" + w.rnq()
 				}
 				s.Violate("C16", "filtered-delivered", "publication excluded by a tags filter was delivered ("+path+")", "client %d %s offset %d tags %v delivered although filters (server s==1, client filter used=%v) exclude it", in.cl.idx, in.ch, p.Offset, truth.Tags, in.tf)
 			}
